@@ -24,6 +24,14 @@ enum Cls { C_AEAD, C_MASK, C_SIV, C_ISAP, NCLS };
 static const char *cls_name[NCLS] = {"aead", "aead_masked", "siv", "isap"};
 static const char *alg_name[3] = {"128", "128a", "80pq"};
 static std::string cname(int cls, int alg) { return std::string(cls_name[cls]) + alg_name[alg]; }
+// byte_array from harness bytes through the one construction path both configurations (std::vector / ASCON_NO_STL) have
+static ascon::byte_array ba_of(const Bytes &b)
+{
+    static const unsigned char z = 0;
+    return ascon::bytes_from_data(b.empty() ? &z : b.data(), b.size());
+}
+// read a byte_array without touching it (the non-const begin() of the ASCON_NO_STL class un-shares the buffer)
+static Bytes bytes_in(const ascon::byte_array &a) { return a.empty() ? Bytes() : Bytes(a.data(), a.data() + a.size()); }
 static size_t klen_of(int cls, int alg) { (void)cls; return alg == 2 ? 20 : 16; }
 static const uint8_t *ptr(const Bytes &b) { return b.empty() ? nullptr : b.data(); }
 
@@ -133,7 +141,11 @@ template <class T> struct HashW : HObj {
     void upd_ptr(const uint8_t *p, size_t n) override { o->update(p, n); }
     void upd_cstr(const char *s) override { o->update(s); }
     void upd_ba(const ascon::byte_array &b) override { o->update(b); }
+#ifndef ASCON_NO_STL
     void upd_str(const std::string &s) override { o->update(s); }
+#else
+    void upd_str(const std::string &s) override { o->update((const unsigned char *)s.data(), s.size()); } // no std::string overload in this configuration
+#endif
     void out_ptr(uint8_t *p, size_t) override { o->finalize(p); }
     Bytes out_ba(size_t) override { ascon::byte_array v = o->finalize(); return Bytes(v.begin(), v.end()); }
     void reset() override { o->reset(); }
@@ -154,7 +166,11 @@ template <class T> struct XofW : HObj {
     void upd_ptr(const uint8_t *p, size_t n) override { o->absorb(p, n); }
     void upd_cstr(const char *s) override { o->absorb(s); }
     void upd_ba(const ascon::byte_array &b) override { o->absorb(b); }
+#ifndef ASCON_NO_STL
     void upd_str(const std::string &s) override { o->absorb(s); }
+#else
+    void upd_str(const std::string &s) override { o->absorb((const unsigned char *)s.data(), s.size()); }
+#endif
     void out_ptr(uint8_t *p, size_t n) override { o->squeeze(p, n); }
     Bytes out_ba(size_t n) override { ascon::byte_array v = o->squeeze(n); return Bytes(v.begin(), v.end()); }
     void reset() override { o->reset(); }
@@ -196,7 +212,7 @@ static HObj *h_new(int k)
 }
 static HObj *h_new_custom(int k, const char *name, const Bytes &custom, bool as_ba)
 {
-    ascon::byte_array ba(custom.begin(), custom.end());
+    ascon::byte_array ba = ba_of(custom);
 #define MK(T) (as_ba ? new XofW<T>(name, ba) : new XofW<T>(name, ptr(custom), custom.size()))
     switch (k) {
     case 2: return MK(ascon::xof);
@@ -362,7 +378,7 @@ struct CppWorld : World {
     {
         if (!c.record) return;
         c.run->probe("packet.output_array_reused_with_kept_copy");
-        if (Bytes(keep.begin(), keep.end()) != keepb)
+        if (bytes_in(keep) != keepb)
             viol(c, "equals_c_api", site + ".kept_copy_of_earlier_result",
                  fmt("a by-value copy of the previous result (%zu bytes) now holds %zu bytes / different content after the output array was reused", keepb.size(), (size_t)keep.size()));
     }
@@ -528,13 +544,13 @@ struct CppWorld : World {
                 if (c.record && !o.intact()) c.run->violation("C12", "canary", site, "ciphertext canary damaged");
                 got = o.copy();
             } else {
-                ascon::byte_array cv0, mv(m.begin(), m.end()), av(ad.begin(), ad.end());
+                ascon::byte_array cv0, mv = ba_of(m), av = ba_of(ad);
                 bool reuse = (sd >> 21) & 1;
                 ascon::byte_array &cv = reuse ? c.out_c : cv0;
                 ascon::byte_array keep = cv;
-                Bytes keepb(keep.begin(), keep.end());
+                Bytes keepb = bytes_in(keep);
                 if (ov & 1) C.obj->encrypt(cv, mv); else C.obj->encrypt(cv, mv, av);
-                got.assign(cv.begin(), cv.end());
+                got = bytes_in(cv);
                 if (reuse) kept_copy_check(c, site, keep, keepb);
             }
             C.nonce += 1;
@@ -564,13 +580,13 @@ struct CppWorld : World {
                 if (ok) got.assign(o.p, o.p + (size_t)std::min<size_t>((size_t)ret, o.n));
             }
         } else {
-            ascon::byte_array mv0(3, 0x55), cv(x.begin(), x.end()), av(ad.begin(), ad.end());
+            ascon::byte_array mv0(3, 0x55), cv = ba_of(x), av = ba_of(ad);
             bool reuse = (sd >> 21) & 1;
             ascon::byte_array &mv = reuse ? c.out_m : mv0;
             ascon::byte_array keep = mv;
-            Bytes keepb(keep.begin(), keep.end());
+            Bytes keepb = bytes_in(keep);
             ok = (ov & 1) ? C.obj->decrypt(mv, cv) : C.obj->decrypt(mv, cv, av);
-            got.assign(mv.begin(), mv.end());
+            got = bytes_in(mv);
             if (reuse) kept_copy_check(c, site, keep, keepb);
             ret = ok ? (int)got.size() : -1;
             // what the output array holds after a reported failure is not documented: empty, all zero, or simply left as
@@ -709,7 +725,7 @@ struct CppWorld : World {
                 if (H.squeezing && H.kind >= 2) H.squeezing = false; // absorb after squeeze is defined for XOF objects by the C API the mirror uses
                 if (ov == 0) { GuardBuf g(n, 1, false); g.set(d); H.o->upd_ptr(n ? g.p : nullptr, n); }
                 else if (ov == 1) { std::string s(d.begin(), d.end()); H.o->upd_cstr(s.c_str()); if (op.u(3) % 7 == 0) H.o->upd_cstr(nullptr); }
-                else if (ov == 2) { ascon::byte_array b(d.begin(), d.end()); H.o->upd_ba(b); }
+                else if (ov == 2) { ascon::byte_array b = ba_of(d); H.o->upd_ba(b); }
                 else { std::string s(d.begin(), d.end()); H.o->upd_str(s); }
                 H.m.upd(ptr(d), n);
                 if (record) run.state(fmt("hupd/%d/%d/%s", H.kind, ov, n == 0 ? "0" : n < 8 ? "<" : ">"));
@@ -776,7 +792,11 @@ struct CppWorld : World {
                 std::string chex(cbuf.data(), cl < 0 ? 0 : (size_t)cl);
                 ascon::byte_array dv = ascon::bytes_from_data(ptr(d), d.size());
                 if (record && Bytes(dv.begin(), dv.end()) != d) viol(c, "equals_c_api", "bytes_from_data", fmt("n=%zu", d.size()));
+#ifndef ASCON_NO_STL
                 std::string h1 = ascon::bytes_to_hex(ptr(d), d.size(), upper), h2 = ascon::bytes_to_hex(dv, upper);
+#else
+                std::string h1 = chex, h2 = chex; // the std::string helpers do not exist in this configuration
+#endif
                 if (record && (h1 != chex || h2 != chex)) viol(c, "equals_c_api", "bytes_to_hex", fmt("n=%zu upper=%d: C function gives %zu characters, helpers %zu/%zu", d.size(), (int)upper, chex.size(), h1.size(), h2.size()));
                 // a text derived from the encoding, decoded by the C function and by the three helper overloads
                 std::string text = chex;
@@ -788,7 +808,12 @@ struct CppWorld : World {
                 std::vector<unsigned char> cout(text.size() / 2 + 1);
                 int dl = ascon_bytes_from_hex(cout.data(), cout.size(), text.data(), text.size());
                 Bytes want = dl < 0 ? Bytes() : Bytes(cout.begin(), cout.begin() + dl); // documented: empty array for invalid input
-                ascon::byte_array v1 = ascon::bytes_from_hex(text.data(), text.size()), v2 = ascon::bytes_from_hex(text.c_str()), v3 = ascon::bytes_from_hex(text);
+                ascon::byte_array v1 = ascon::bytes_from_hex(text.data(), text.size()), v2 = ascon::bytes_from_hex(text.c_str());
+#ifndef ASCON_NO_STL
+                ascon::byte_array v3 = ascon::bytes_from_hex(text);
+#else
+                ascon::byte_array v3 = v2;
+#endif
                 if (record) {
                     if (Bytes(v1.begin(), v1.end()) != want) viol(c, "equals_c_api", "bytes_from_hex(ptr,len)", fmt("shape=%d: helper %zu bytes, C function %d", shape, v1.size(), dl));
                     if (Bytes(v2.begin(), v2.end()) != want) viol(c, "equals_c_api", "bytes_from_hex(cstr)", fmt("shape=%d: helper %zu bytes, C function %d", shape, v2.size(), dl));
